@@ -10,7 +10,7 @@ PROP = {'areas': [{'area': 'engine',
                        'corpus/engine/d9_connack_before_connect_flushed.script'],
             'extra': ['100'],
             'only_prop': 'C01',
-            'quick': 4000,
+            'quick': 12000,
             'thorough': 2000000,
             'tie_fields': ['done', 'ops', 'uq', 'rq', 'hq', 'cur', 'pwco', 'ppub', 'pnon', 'nextid', 'outcome']}],
  'coq_target': 'Properties/C01.vo',
